@@ -147,6 +147,28 @@ func dDefaultCases() []dDefaultCase {
 			}
 			return "", nil, nil
 		}},
+		{"Slice(String()).Default([]string) validating a value of a named slice type", func() (any, func(), any) {
+			type tags []string
+			def := []string{"a", "b"}
+			s := z.Slice(z.String()).Default(def)
+			var v tags
+			panicked := false
+			func() {
+				defer func() {
+					if recover() != nil {
+						panicked = true // refusing the mismatching types loudly is the library's choice; sharing memory is not
+					}
+				}()
+				s.Validate(&v)
+			}()
+			if !panicked && len(v) == 2 {
+				v[0], v[1] = "A", "B"
+				if def[0] != "a" || def[1] != "b" {
+					return fmt.Sprintf("the validated value (named slice type) was given the default's own backing array: writing to it changed the default to %v", def), nil, nil
+				}
+			}
+			return "", nil, nil
+		}},
 		{"Slice(custom [2]*int).Default (Validate)", func() (any, func(), any) {
 			x, y := 1, 2
 			s := z.Slice(z.CustomFunc(func(p *[2]*int, c z.Ctx) bool { return true })).Default([][2]*int{{&x, &y}})
@@ -535,6 +557,69 @@ func dRowTransforms() string {
 		if iv != ip || fmt.Sprint(val) != fmt.Sprint(d) {
 			return fmt.Sprintf("rows %v: Validate reports [%s] and leaves %v; Parse of the same data reports [%s] and leaves %v", rows, iv, val, ip, d)
 		}
+	}
+	return ""
+}
+
+// dModesAgreeMore: populated values on which Parse and Validate must agree in issues (path, code, message) and values: a primitive whose
+// failed test is caught and whose PostTransform then rewrites the catch value; a top-level pointer schema under an application-wide
+// formatter; a field whose zog tag ends in a blank.
+type dSpaced struct {
+	Email string `zog:"email "`
+	Name  string `zog:" name"`
+}
+
+func dModesAgreeMore() string {
+	upper := func(p any, ctx z.Ctx) error { s := p.(*string); *s = strings.ToUpper(*s); return nil }
+	mk := func() *z.StringSchema[string] { return z.String().Min(5).Catch("fallback").PostTransform(upper) }
+	v := "abc"
+	lv := mk().Validate(&v)
+	var d string
+	lp := mk().Parse("abc", &d)
+	if len(lv) != 0 || len(lp) != 0 || v != d || v != "FALLBACK" {
+		return fmt.Sprintf("String().Min(5).Catch(fallback).PostTransform(upper) on \"abc\": Validate leaves %q (%d issues), Parse leaves %q (%d issues); want FALLBACK from both", v, len(lv), d, len(lp))
+	}
+	type rec struct{ A string }
+	st := func() *z.StructSchema { return z.Struct(z.Schema{"a": mk()}) }
+	rv := rec{A: "abc"}
+	st().Validate(&rv)
+	var rp rec
+	st().Parse(map[string]any{"a": "abc"}, &rp)
+	if rv != rp {
+		return fmt.Sprintf("the same as a struct field: Validate leaves %+v, Parse leaves %+v", rv, rp)
+	}
+	saved := conf.IssueFormatter
+	conf.IssueFormatter = func(e *z.ZogIssue, ctx z.Ctx) { e.SetMessage("app:" + e.Code) }
+	ps := "ab"
+	pp := &ps
+	mv := z.Ptr(z.String().Min(5)).Validate(&pp)
+	var dp *string
+	mp := z.Ptr(z.String().Min(5)).Parse("ab", &dp)
+	conf.IssueFormatter = saved
+	msg := func(m z.ZogIssueMap) string {
+		var o []string
+		for k, l := range m {
+			if k != "$first" {
+				for _, e := range l {
+					o = append(o, k+"|"+e.Code+"|"+e.Message)
+				}
+			}
+		}
+		sortStrings(o)
+		return strings.Join(o, "; ")
+	}
+	if msg(mv) != msg(mp) || msg(mv) != "$root|min|app:min" {
+		return fmt.Sprintf("Ptr(String().Min(5)) under an application-wide formatter: Validate reports [%s], Parse reports [%s]; want [$root|min|app:min] from both", msg(mv), msg(mp))
+	}
+	sp := func() *z.StructSchema {
+		return z.Struct(z.Schema{"email": z.String().Email(), "name": z.String().Min(5)})
+	}
+	sv := dSpaced{Email: "nope", Name: "abc"}
+	m1 := sp().Validate(&sv)
+	var sd dSpaced
+	m2 := sp().Parse(map[string]any{"email ": "nope", " name": "abc"}, &sd)
+	if msg(m1) != msg(m2) || sd != sv || len(m1) != 3 {
+		return fmt.Sprintf("fields tagged `zog:\"email \"` / `zog:\" name\"`: Validate reports [%s] and leaves %+v; Parse of the map keyed the same way reports [%s] and leaves %+v", msg(m1), sv, msg(m2), sd)
 	}
 	return ""
 }
